@@ -392,3 +392,202 @@ Section Loops.
       rewrite (parse_keeps g e Hg Hp), (IH es' Hr eq_refl). reflexivity.
   Qed.
 End Loops.
+
+(* ------------------------------------------------------------------ the Pratt loop keeps the order *)
+Section Main.
+  Variable tbl : ops_map.
+  Variable imap : list (oprule * binop).
+  Variable pmap : list (oprule * prefix_ctor).
+  Hypothesis tbl_pos : forall r a p, ops_get tbl r = Some (a, p) -> 0 < p.
+  Hypothesis tbl_postfix : forall r a p,
+    r = R_access \/ r = R_dot_access \/ r = R_call_list -> ops_get tbl r = Some (a, p) -> a = Postfix.
+
+  Local Notation PE := (pexpr_c tbl imap pmap).
+  Local Notation PL := (ploop_c tbl imap pmap).
+  Local Notation PO := (map_postfix_c tbl imap pmap).
+  Local Notation PR := (primary_c tbl imap pmap).
+  Local Notation PI := (parse_items_c tbl imap pmap).
+
+  Lemma PE_S f rbp its : PE (S f) rbp its =
+    match its with
+    | [] => Outcome.Panic
+    | pr0 :: rest =>
+        obind (match item_op pr0 with
+               | Some r =>
+                   match ops_get tbl r with
+                   | Some (Prefix, p) =>
+                       obind (PE f (p - 1) rest) (fun rr =>
+                       obind (map_prefix pmap r (fst rr)) (fun e => Outcome.Ok (e, snd rr)))
+                   | Some _ => Outcome.Panic
+                   | None => Outcome.Panic
+                   end
+               | None => obind (PR f pr0) (fun e => Outcome.Ok (e, rest))
+               end) (fun lr => PL f rbp (fst lr) (snd lr))
+    end.
+  Proof. reflexivity. Qed.
+  Lemma PL_S f rbp lhs its : PL (S f) rbp lhs its =
+    obind (lbp tbl its) (fun l =>
+      if Nat.ltb rbp l then
+        match its with
+        | [] => Outcome.Panic
+        | pr0 :: rest =>
+            match item_op pr0 with
+            | Some r =>
+                match ops_get tbl r with
+                | Some (Infix a, p) =>
+                    obind (PE f (match a with ALeft => p | ARight => p - 1 end) rest) (fun rr =>
+                    obind (map_infix imap lhs r (fst rr)) (fun e => PL f rbp e (snd rr)))
+                | Some (Postfix, _) => obind (PO f lhs pr0) (fun e => PL f rbp e rest)
+                | _ => Outcome.Panic
+                end
+            | None => Outcome.Panic
+            end
+        end
+      else Outcome.Ok (lhs, its)).
+  Proof. reflexivity. Qed.
+  Lemma PI_S f its : PI (S f) its = obind (PE f 0 its) (fun r => Outcome.Ok (fst r)).
+  Proof. reflexivity. Qed.
+
+  Ltac bind_ok H x Hx :=
+    match type of H with
+    | obind ?e _ = _ => destruct e as [x| | | |] eqn:Hx; cbn [obind] in H; try discriminate H
+    end.
+
+  Lemma map_infix_none r x e : map_infix imap None r x = Outcome.Ok e -> e = None.
+  Proof. unfold map_infix. destruct (assoc_find r imap); intro H; inversion H. reflexivity. Qed.
+  Lemma PO_none f pr0 e : PO f None pr0 = Outcome.Ok e -> e = None.
+  Proof.
+    destruct f; [discriminate|]. cbn [map_postfix_c].
+    destruct pr0; try discriminate.
+    - destruct r; try discriminate. intro H; inversion H; reflexivity.
+    - intro H. bind_ok H i Hi. inversion H. destruct i; reflexivity.
+    - intro H; inversion H; reflexivity.
+    - intro H. bind_ok H a Ha. inversion H. destruct a; reflexivity.
+  Qed.
+  Lemma PL_none : forall f rbp its t rest, PL f rbp None its = Outcome.Ok (t, rest) -> t = None.
+  Proof.
+    induction f as [|f IH]; intros rbp its t rest H; [discriminate H|].
+    rewrite PL_S in H. bind_ok H l Hl.
+    destruct (Nat.ltb rbp l); [|inversion H; reflexivity].
+    destruct its as [|pr0 rest0]; [discriminate H|].
+    destruct (item_op pr0) as [r|]; [|discriminate H].
+    destruct (ops_get tbl r) as [[[| |a] p]|]; try discriminate H.
+    - bind_ok H e He. apply PO_none in He. subst e. eapply IH; exact H.
+    - bind_ok H rr Hrr. bind_ok H e He. apply map_infix_none in He. subst e. eapply IH; exact H.
+  Qed.
+
+  Definition stops (rbp : nat) (rest : list item) : Prop :=
+    exists l, lbp tbl rest = Outcome.Ok l /\ l <= rbp.
+  Lemma stops0 rest : stops 0 rest -> rest = [].
+  Proof.
+    intros (l & Hl & Hle). destruct rest as [|pr0 r]; [reflexivity|exfalso].
+    cbn [lbp] in Hl. destruct (item_op pr0) as [o|]; [|discriminate Hl].
+    destruct (ops_get tbl o) as [[a p]|] eqn:Ho; [|discriminate Hl].
+    inversion Hl; subst l. apply tbl_pos in Ho. lia.
+  Qed.
+
+  Lemma nonpostfix_no_comments i r a p :
+    item_op i = Some r -> ops_get tbl r = Some (a, p) -> a <> Postfix -> item_comments i = [].
+  Proof.
+    intros Hi Ho Ha. destruct i; cbn [item_op] in Hi; try discriminate Hi; try reflexivity;
+      inversion Hi; subst r; exfalso; apply Ha; refine (tbl_postfix _ _ _ _ Ho); tauto.
+  Qed.
+
+  Definition keepsS (f : nat) : Prop :=
+    (forall rbp its t rest, good its -> PE f rbp its = Outcome.Ok (Some t, rest) ->
+        items_comments its = expr_comments t ++ items_comments rest /\ good rest /\ stops rbp rest)
+    /\ (forall rbp lhs its t rest, good its -> PL f rbp (Some lhs) its = Outcome.Ok (Some t, rest) ->
+        expr_comments lhs ++ items_comments its = expr_comments t ++ items_comments rest
+        /\ good rest /\ stops rbp rest)
+    /\ (forall lhs pr0 t, goodi pr0 -> PO f (Some lhs) pr0 = Outcome.Ok (Some t) ->
+        expr_comments lhs ++ item_comments pr0 = expr_comments t)
+    /\ (forall pr0 t, goodi pr0 -> PR f pr0 = Outcome.Ok (Some t) -> item_comments pr0 = expr_comments t)
+    /\ (forall its t, good its -> PI f its = Outcome.Ok (Some t) -> items_comments its = expr_comments t).
+
+  Lemma keeps_all : forall f, keepsS f.
+  Proof.
+    induction f as [|f (IHa & IHb & IHc & IHd & IHe)].
+    { repeat split; intros; discriminate. }
+    assert (Hpk : forall g e, good g -> PI f g = Outcome.Ok (Some e) -> items_comments g = expr_comments e)
+      by exact IHe.
+    split; [|split; [|split; [|split]]].
+    - (* pexpr *)
+      intros rbp its t rest Hg H. rewrite PE_S in H.
+      destruct its as [|pr0 rest0]; [discriminate H|].
+      apply good_cons in Hg as [Hg0 Hgr].
+      bind_ok H lr Hlr. destruct lr as [e mid]. cbn [fst snd] in H.
+      destruct e as [e|]; [|apply PL_none in H; discriminate H].
+      destruct (item_op pr0) as [r|] eqn:Hop.
+      + destruct (ops_get tbl r) as [[[| |a] p]|] eqn:Hops; try discriminate Hlr.
+        bind_ok Hlr rr Hrr. destruct rr as [x mid']. cbn [fst snd] in Hlr.
+        bind_ok Hlr e' He'. inversion Hlr; subst e' mid'. clear Hlr.
+        unfold map_prefix in He'.
+        destruct x as [x|]; [|destruct (assoc_find r pmap) as [[u|]|]; inversion He'].
+        destruct (IHa _ _ _ _ Hgr Hrr) as (E1 & Hgm & _).
+        destruct (IHb _ _ _ _ _ Hgm H) as (E2 & Hgrest & Hst).
+        split; [|split; assumption].
+        cbn [items_comments]. rewrite (nonpostfix_no_comments _ _ _ _ Hop Hops) by discriminate.
+        cbn [app]. rewrite E1, <- E2.
+        destruct (assoc_find r pmap) as [[u|]|]; inversion He'; subst e; cbn [expr_comments];
+          rewrite <- ?app_assoc; reflexivity.
+      + bind_ok Hlr e' He'. inversion Hlr; subst e' mid. clear Hlr.
+        destruct (IHb _ _ _ _ _ Hgr H) as (E2 & Hgrest & Hst).
+        split; [|split; assumption]. cbn [items_comments]. rewrite (IHd _ _ Hg0 He'). exact E2.
+    - (* ploop *)
+      intros rbp lhs its t rest Hg H. rewrite PL_S in H. bind_ok H l Hl.
+      destruct (Nat.ltb rbp l) eqn:Hlt.
+      2:{ inversion H; subst. split; [reflexivity|split; [exact Hg|]].
+          exists l. split; [exact Hl|]. apply Nat.ltb_ge in Hlt. exact Hlt. }
+      destruct its as [|pr0 rest0]; [discriminate H|].
+      apply good_cons in Hg as [Hg0 Hgr].
+      destruct (item_op pr0) as [r|] eqn:Hop; [|discriminate H].
+      destruct (ops_get tbl r) as [[[| |a] p]|] eqn:Hops; try discriminate H.
+      + bind_ok H e He. destruct e as [e|]; [|apply PL_none in H; discriminate H].
+        destruct (IHb _ _ _ _ _ Hgr H) as (E2 & Hgrest & Hst).
+        split; [|split; assumption]. cbn [items_comments].
+        rewrite <- E2, <- (IHc _ _ _ Hg0 He), <- !app_assoc. reflexivity.
+      + bind_ok H rr Hrr. destruct rr as [x mid]. cbn [fst snd] in H.
+        bind_ok H e He. destruct e as [e|]; [|apply PL_none in H; discriminate H].
+        unfold map_infix in He. destruct (assoc_find r imap) as [o|]; [|discriminate He].
+        destruct x as [x|]; [|inversion He]. inversion He; subst e. clear He.
+        destruct (IHa _ _ _ _ Hgr Hrr) as (E1 & Hgm & _).
+        destruct (IHb _ _ _ _ _ Hgm H) as (E2 & Hgrest & Hst).
+        split; [|split; assumption].
+        cbn [items_comments]. rewrite (nonpostfix_no_comments _ _ _ _ Hop Hops) by discriminate.
+        cbn [app]. rewrite E1, <- E2. cbn [expr_comments]. rewrite <- !app_assoc. reflexivity.
+    - (* map_postfix *)
+      intros lhs pr0 t Hg H. cbn [map_postfix_c] in H.
+      destruct pr0; try discriminate H.
+      + destruct r; try discriminate H. inversion H; subst t. cbn. apply app_nil_r.
+      + bind_ok H i Hi. destruct i as [i|]; inversion H; subst t.
+        rewrite ic_IAccess. rewrite (Hpk _ _ (goodi_IAccess _ Hg) Hi). reflexivity.
+      + inversion H; subst t. cbn. apply app_nil_r.
+      + bind_ok H a Ha. destruct a as [a|]; inversion H; subst t.
+        rewrite ic_ICall. rewrite (omapM_keeps _ Hpk _ _ (goodi_ICall _ Hg) Ha). reflexivity.
+    - (* primary *)
+      intros pr0 t Hg H. cbn [primary_c] in H.
+      destruct pr0; try discriminate H; try (inversion H; subst t; reflexivity).
+      + inversion H; subst t. destruct (builtin_of_name s); reflexivity.
+      + rewrite ic_IExpr. apply Hpk; [eapply goodi_IExpr; exact Hg|exact H].
+      + rewrite ic_IList. destruct (goodi_IList _ Hg) as (Hs & Ha & Hl).
+        eapply list_arm_keeps; eauto.
+      + rewrite ic_IRecord. destruct (goodi_IRecord _ Hg) as (Hs & Ha & Hl).
+        eapply rec_arm_keeps; eauto.
+      + bind_ok H b Hb. destruct b as [b|]; inversion H; subst t.
+        rewrite ic_ILambda. cbn [expr_comments]. apply Hpk; [eapply goodi_ILambda; exact Hg|exact Hb].
+      + destruct (goodi_ICond _ _ _ Hg) as (Hgc & Hgt & Hge).
+        bind_ok H c' Hc. destruct c' as [c'|]; [|inversion H].
+        bind_ok H t' Ht. destruct t' as [t'|]; [|inversion H].
+        bind_ok H e' He. destruct e' as [e'|]; inversion H; subst t.
+        rewrite ic_ICond. cbn [expr_comments].
+        rewrite (Hpk _ _ Hgc Hc), (Hpk _ _ Hgt Ht), (Hpk _ _ Hge He). reflexivity.
+      + rewrite ic_IDo. destruct (goodi_IDo _ Hg) as (Hs & Hd).
+        unfold do_arm_c in H. rewrite <- (do_loop_keeps _ Hpk _ _ _ _ _ Hd Hs H). reflexivity.
+      + bind_ok H v' Hv. destruct v' as [v'|]; inversion H; subst t.
+        rewrite ic_IAssign. cbn [expr_comments]. apply Hpk; [eapply goodi_IAssign; exact Hg|exact Hv].
+    - (* parse_items *)
+      intros its t Hg H. rewrite PI_S in H. bind_ok H r Hr. destruct r as [x rest]. cbn [fst] in H.
+      inversion H; subst x. destruct (IHa _ _ _ _ Hg Hr) as (E & _ & Hst).
+      apply stops0 in Hst. subst rest. rewrite E. cbn [items_comments]. apply app_nil_r.
+  Qed.
+End Main.
